@@ -246,14 +246,22 @@ fn key_tree_wf(t: &KeyExpTree<KK, i32, i32>) -> Result<usize, String> {
     let b = &t.store.buffer;
     wf_exec(b.len(), t.root, &t.store.unused, &|i| { let n = &b[i as usize]; (n.parent, n.left, n.right, n.color == Color::Red) }, &|i| b[i as usize].entity.key.0 as i64)
 }
-fn map_tree_wf(t: &MapTree<i32, i32>) -> Result<usize, String> {
+fn map_tree_wf<V: Clone + Default>(t: &MapTree<i32, V>) -> Result<usize, String> {
     use i_tree::map::node::Color;
     let b = &t.store.buffer;
     wf_exec(b.len(), t.root, &t.store.unused, &|i| { let n = &b[i as usize]; (n.parent, n.left, n.right, n.color == Color::Red) }, &|i| b[i as usize].entity.key as i64)
 }
-#[derive(Clone, Copy, Default, Debug, PartialEq)]
-struct SV { k: i32, payload: i32 }
+// values that own heap data (C04 / C05: "non-trivially cloneable" values; `needs_drop::<V>()` is true): `tag` must always spell
+// the payload - a value that was reset, moved out, duplicated into another entry or torn shows up as a mismatch
+#[derive(Clone, Default, Debug, PartialEq)]
+struct SV { k: i32, payload: i32, tag: String }
+fn sv(k: i32, payload: i32) -> SV { SV { k, payload, tag: format!("p{}k{}", payload, k) } }
+impl SV { fn get(&self) -> i32 { if self.tag == format!("p{}k{}", self.payload, self.k) { self.payload } else { -999_000 - self.payload.rem_euclid(1000) } } }
 impl i_tree::set::sort::KeyValue<i32> for SV { fn key(&self) -> &i32 { &self.k } }
+#[derive(Clone, Default, Debug, PartialEq)]
+struct HV { v: i32, tag: String }
+fn hv(v: i32) -> HV { HV { v, tag: format!("v{}", v) } }
+impl HV { fn get(&self) -> i32 { if self.tag == format!("v{}", self.v) { self.v } else { -999_000 - self.v.rem_euclid(1000) } } }
 fn set_tree_wf(t: &SetTree<i32, SV>) -> Result<usize, String> {
     use i_tree::set::node::Color;
     let b = &t.store.buffer;
@@ -361,8 +369,8 @@ fn explore_key(seed: u64, steps: usize, nkeys: i32) -> Result<(), String> {
 fn explore_map(seed: u64, steps: usize, nkeys: i32) -> Result<(), String> {
     use i_tree::map::list::MapList;
     let mut rng = Rng(seed.wrapping_mul(0x9E3779B97F4A7C15) | 1);
-    let mut t = MapTree::<i32, i32>::new(if seed % 3 == 0 { 0 } else { 9 });
-    let mut l = MapList::<i32, i32>::new(0);
+    let mut t = MapTree::<i32, HV>::new(if seed % 3 == 0 { 0 } else { 9 });
+    let mut l = MapList::<i32, HV>::new(0);
     let mut model = std::collections::BTreeMap::<i32, i32>::new();
     let mut hist = String::new();
     let mut inv_fail: Option<String> = None;
@@ -377,16 +385,16 @@ fn explore_map(seed: u64, steps: usize, nkeys: i32) -> Result<(), String> {
                 // C17: handles taken before an insertion keep designating the same entry
                 let handles: Vec<(i32, u32)> = model.keys().map(|&kk| (kk, t.first_index_less(kk))).collect();
                 h!(hist, "insert({},{}); ", k, vseq);
-                t.insert(k, vseq); l.insert(k, vseq); model.insert(k, vseq);
+                t.insert(k, hv(vseq)); l.insert(k, hv(vseq)); model.insert(k, vseq);
                 for (kk, h) in handles {
-                    if *t.value_by_index(h) != model[&kk] { return Err(format!("[C17] {}-> handle of key {} designates value {} after the insertion", hist, kk, t.value_by_index(h))); }
+                    if t.value_by_index(h).get() != model[&kk] { return Err(format!("[C17] {}-> handle of key {} designates value {} after the insertion", hist, kk, t.value_by_index(h).get())); }
                     if t.first_index_less(kk) != h { return Err(format!("[C17] {}-> handle of key {} changed across an insertion", hist, kk)); }
                 }
             }
             5 | 6 => { h!(hist, "delete({}); ", k); t.delete(k); l.delete(k); model.remove(&k); }
             7 | 8 => {
                 h!(hist, "get_value({}); ", k);
-                let a = t.get_value(k).cloned(); let b = l.get_value(k).cloned(); let w = model.get(&k).cloned();
+                let a = t.get_value(k).map(|v| v.get()); let b = l.get_value(k).map(|v| v.get()); let w = model.get(&k).cloned();
                 if a != w { return Err(format!("[C04] {}-> tree {:?} expected {:?}", hist, a, w)); }
                 if b != w { return Err(format!("[C13] {}-> list {:?} expected {:?}", hist, b, w)); }
             }
@@ -401,10 +409,10 @@ fn explore_map(seed: u64, steps: usize, nkeys: i32) -> Result<(), String> {
                     None => { if h != EMPTY_REF || hl != EMPTY_REF { return Err(format!("[C08] {}-> handle {} / {} expected the empty sentinel", hist, h, hl)); } }
                     Some((wk, wv)) => {
                         if h == EMPTY_REF || hl == EMPTY_REF { return Err(format!("[C08] {}-> empty sentinel, expected the entry {}", hist, wk)); }
-                        if *t.value_by_index(h) != wv || *l.value_by_index(hl) != wv { return Err(format!("[C08] {}-> read {} / {} through the handle, expected {}", hist, t.value_by_index(h), l.value_by_index(hl), wv)); }
+                        if t.value_by_index(h).get() != wv || l.value_by_index(hl).get() != wv { return Err(format!("[C08] {}-> read {} / {} through the handle, expected {}", hist, t.value_by_index(h).get(), l.value_by_index(hl).get(), wv)); }
                         if op == 10 {
                             vseq += 1; h!(hist, "write({}); ", vseq);
-                            *t.value_by_index_mut(h) = vseq; *l.value_by_index_mut(hl) = vseq; model.insert(wk, vseq);
+                            *t.value_by_index_mut(h) = hv(vseq); *l.value_by_index_mut(hl) = hv(vseq); model.insert(wk, vseq);
                         } else if op == 11 {
                             h!(hist, "delete_by_index; ");
                             t.delete_by_index(h); l.delete_by_index(hl); model.remove(&wk);
@@ -421,7 +429,7 @@ fn explore_map(seed: u64, steps: usize, nkeys: i32) -> Result<(), String> {
             Err(e) => { let m = format!("[C02,C11{}] {}-> invariant broken: {}", if hist.ends_with("clear(); ") { ",C12" } else { "" }, hist, e); if PAST_INV.load(std::sync::atomic::Ordering::Relaxed) { if inv_fail.is_none() { inv_fail = Some(m); } } else { return Err(m); } }
             Ok(n) => { if n != model.len() { return Err(format!("[C04,C11] {}-> {} entries stored, {} expected", hist, n, model.len())); } }
         }
-        for (kk, vv) in model.iter() { if t.get_value(*kk) != Some(vv) { return Err(format!("[C04] {}-> key {} lost or altered", hist, kk)); } }
+        for (kk, vv) in model.iter() { if t.get_value(*kk).map(|v| v.get()) != Some(*vv) { return Err(format!("[C04] {}-> key {} lost or altered", hist, kk)); } }
     }
     if let Some(m) = inv_fail { return Err(m); }
     Ok(())
@@ -445,18 +453,18 @@ fn explore_set(seed: u64, steps: usize, nkeys: i32) -> Result<(), String> {
                 // C17: handles taken before an insertion keep designating the same entry
                 let handles: Vec<(i32, u32)> = model.keys().map(|kk| (*kk, t.first_index_less(kk))).collect();
                 h!(hist, "insert({},{}); ", k, vseq);
-                t.insert(SV { k, payload: vseq }); SetCollection::<i32, SV>::insert(&mut l, SV { k, payload: vseq }); model.insert(k, vseq);
+                t.insert(sv(k, vseq)); SetCollection::<i32, SV>::insert(&mut l, sv(k, vseq)); model.insert(k, vseq);
                 for (kk, h) in handles {
                     if h == EMPTY_REF || (h as usize) >= t.store.buffer.len() { continue; } // (a lookup that already failed is reported by C05 / C08)
                     let v = t.value_by_index(h);
-                    if v.k != kk || v.payload != model[&kk] { return Err(format!("[C17] {}-> handle of key {} designates ({},{}) after the insertion", hist, kk, v.k, v.payload)); }
+                    if v.k != kk || v.get() != model[&kk] { return Err(format!("[C17] {}-> handle of key {} designates ({},{}) after the insertion", hist, kk, v.k, v.get())); }
                     if t.first_index_less(&kk) != h { return Err(format!("[C17] {}-> handle of key {} changed across an insertion", hist, kk)); }
                 }
             }
             5 | 6 => { h!(hist, "delete({}); ", k); t.delete(&k); SetCollection::<i32, SV>::delete(&mut l, &k); model.remove(&k); }
             7 | 8 => {
                 h!(hist, "get_value({}); ", k);
-                let a = t.get_value(&k).map(|v| v.payload); let b = SetCollection::<i32, SV>::get_value(&l, &k).map(|v| v.payload); let w = model.get(&k).cloned();
+                let a = t.get_value(&k).map(|v| v.get()); let b = SetCollection::<i32, SV>::get_value(&l, &k).map(|v| v.get()); let w = model.get(&k).cloned();
                 if a != w { return Err(format!("[C05] {}-> tree {:?} expected {:?}", hist, a, w)); }
                 if b != w { return Err(format!("[C13] {}-> list {:?} expected {:?}", hist, b, w)); }
             }
@@ -469,7 +477,7 @@ fn explore_set(seed: u64, steps: usize, nkeys: i32) -> Result<(), String> {
                     None => { if h != EMPTY_REF { return Err(format!("[C08] {}-> handle {} expected the empty sentinel", hist, h)); } }
                     Some((wk, wv)) => {
                         if h == EMPTY_REF { return Err(format!("[C08] {}-> empty sentinel, expected the entry {}", hist, wk)); }
-                        if t.value_by_index(h).payload != wv { return Err(format!("[C08] {}-> read {} through the handle, expected {}", hist, t.value_by_index(h).payload, wv)); }
+                        if t.value_by_index(h).get() != wv { return Err(format!("[C08] {}-> read {} through the handle, expected {}", hist, t.value_by_index(h).get(), wv)); }
                         if op == 10 { h!(hist, "delete_by_index; "); t.delete_by_index(h); SetCollection::<i32, SV>::delete(&mut l, &wk); model.remove(&wk); }
                     }
                 }
@@ -587,7 +595,7 @@ fn explore_bulk_handles(trees: bool) -> Result<(), String> {
         note(&hist);
         let mut ml = i_tree::map::list::MapList::<i32, i32>::new(0);
         let mut sl = SetList::<SV>::new(0);
-        for k in 0..n { ml.insert(k, k + 1); SetCollection::<i32, SV>::insert(&mut sl, SV { k, payload: k + 1 }); }
+        for k in 0..n { ml.insert(k, k + 1); SetCollection::<i32, SV>::insert(&mut sl, sv(k, k + 1)); }
         let mut pos = SetCollection::<i32, SV>::first_index_less(&sl, &0);
         for k in 0..n {
             let pl = ml.first_index_less(k);
@@ -602,7 +610,7 @@ fn explore_bulk_handles(trees: bool) -> Result<(), String> {
     note(&hist);
     let mut mt = MapTree::<i32, i32>::new(0);
     let mut st = SetTree::<i32, SV>::new(0);
-    for k in 0..n { mt.insert(k, k + 1); st.insert(SV { k, payload: k + 1 }); }
+    for k in 0..n { mt.insert(k, k + 1); st.insert(sv(k, k + 1)); }
     if let Err(e) = map_tree_wf(&mt) { return Err(format!("[C02,C11] {}-> invariant broken: {}", hist, e)); }
     if let Err(e) = set_tree_wf(&st) { return Err(format!("[C02,C11] {}-> invariant broken: {}", hist, e)); }
     let mut h = st.first_index_less(&0);
